@@ -2,7 +2,10 @@ package main
 
 import (
 	"fmt"
+	"reflect"
 	"strings"
+
+	"github.com/open2b/scriggo/native"
 
 	"verifharness/internal/hx"
 	"verifharness/internal/proto"
@@ -31,8 +34,8 @@ const (
 	classGoMethodValue = "go-method-value"
 	// a nil function value compared with nil is not nil
 	classNilConversion = "nil-func-compares-not-nil"
-	// for f := range ch { f(xs...) } with f a variadic native function: the registers of the call
-	// are mixed up (the callable lands where the slice is expected)
+	// for f := range ch { f(xs...) } with f a variadic function: the registers of the call are
+	// mixed up (the callable lands where the slice is expected)
 	classRangeChanSpread = "range-channel-spread-call"
 )
 
@@ -47,35 +50,55 @@ func isCallableClass(id string) bool {
 	return false
 }
 
-// predict returns the class that predicts a failure of the case and the predicted effect:
-// "host-panic", "panic-error" (Run returns a *PanicError where gc's program does not panic),
-// "silent" (no error, but the record differs from gc's), "hang", "undocumented-error".
-func predict(cc callCase) (class, effect string) {
+// predictions returns, in order of precedence, the classes that predict a failure of the case,
+// each with the predicted effect: "host-panic", "panic-error" (Run returns a *PanicError where
+// gc's program does not panic), "silent" (no error, but the record differs from gc's), "hang",
+// "undocumented-error". A later class shows only where an earlier one has been cured.
+func predictions(cc callCase) (ps [][2]string) {
 	k, st := cc.kind, cc.st
-	switch {
-	case k.neverBuilds:
-		return "", ""
-	case st.appendElem:
-		return classAppend, "host-panic"
-	case k.mv && st.iface:
+	add := func(class, effect string) { ps = append(ps, [2]string{class, effect}) }
+	if k.neverBuilds {
+		return nil
+	}
+	if st.appendElem {
+		add(classAppend, "host-panic")
+	}
+	if k.mv && st.iface {
+		// the method value reaches the interface as a *callable: callable.Value is not involved
 		if st.mvIface != "" && !k.noGc {
-			return classMethodValueInterface, st.mvIface
+			add(classMethodValueInterface, st.mvIface)
 		}
-		return "", ""
-	case k.raw != "" && st.reflect && !k.noGc:
+		return ps
+	}
+	if k.raw != "" && st.reflect && !k.noGc {
 		if st.envEffect != "" {
-			return classEnvValue, st.envEffect
+			add(classEnvValue, st.envEffect)
+		} else {
+			add(classEnvValue, "host-panic")
 		}
-		return classEnvValue, "host-panic"
-	case k.mv && (st.name == "go-local" || st.name == "go-direct" && k.imv):
-		return classGoMethodValue, "undocumented-error"
-	case st.name == "channel-range" && strings.HasPrefix(k.expr, "x.Nat") && strings.HasSuffix(k.args, "..."):
-		return classRangeChanSpread, "panic-error"
-	case k.nilFn && st.nilCmp:
+	}
+	if k.mv && (st.name == "go-local" || st.name == "go-direct" && k.imv) {
+		add(classGoMethodValue, "undocumented-error")
+	}
+	if st.name == "channel-range" && strings.HasSuffix(k.args, "...") {
+		add(classRangeChanSpread, "panic-error")
+	}
+	if k.nilFn && st.nilCmp {
 		if st.name == "nil-compare-then-call" {
-			return classNilConversion, "panic-error"
+			add(classNilConversion, "panic-error")
+		} else {
+			add(classNilConversion, "silent")
 		}
-		return classNilConversion, "silent"
+	}
+	return ps
+}
+
+// predict returns the first prediction whose class is active (all of them if active is nil).
+func predict(cc callCase, active map[string]bool) (class, effect string) {
+	for _, p := range predictions(cc) {
+		if active == nil || active[p[0]] {
+			return p[0], p[1]
+		}
 	}
 	return "", ""
 }
@@ -134,7 +157,7 @@ func activeClasses(c *hx.Ctx, all []callCase, gc map[string]string) map[string]b
 			if cc.cs.Src != f.Minimal || len(cc.cs.Extra) != 0 {
 				continue
 			}
-			class, effect := predict(cc)
+			class, effect := predict(cc, nil)
 			o, tr := runCallable(cc)
 			got, clause := observe(cc, o, tr, gc)
 			if class == f.ID && got == effect && messageOf(class, cc, o) {
@@ -146,4 +169,140 @@ func activeClasses(c *hx.Ctx, all []callCase, gc map[string]string) map[string]b
 		}
 	}
 	return active
+}
+
+// ---------------------------------------------------------------- tie to Model/CallableValue.lean
+
+// funcValueTie compares the model of function values as Go values (what callable.Value does
+// and which store sites convert, regenerated; the static types, removeEnvArg) with the real code:
+// per kind of the family, the parameter list of the real Go function (reflect) against the
+// model's verdict "has an environment parameter the Scriggo code does not see", and the model's
+// verdict "the value handed out has the static type" against what happens when the real
+// virtual machine stores that callable in a slice; the verdict on appendSlice against append.
+func funcValueTie(c *hx.Ctx, all []callCase, gc map[string]string) error {
+	if c.D == nil {
+		return nil
+	}
+	ans, err := c.D.Ask("C05 funcvalues")
+	if err != nil {
+		return err
+	}
+	c.Res.Hist("funcvalues: " + ans)
+	fields := map[string]string{}
+	for _, f := range strings.Fields(strings.TrimPrefix(ans, "ok ")) {
+		if k, v, ok := strings.Cut(f, ":"); ok {
+			fields[k] = v
+		}
+	}
+	find := func(id string) (callCase, bool) {
+		for _, cc := range all {
+			if cc.id() == id {
+				return cc, true
+			}
+		}
+		return callCase{}, false
+	}
+	// fails tells whether the case of the matrix fails today
+	fails := func(id string) (bool, string) {
+		cc, ok := find(id)
+		if !ok {
+			return false, "no such case"
+		}
+		o, tr := runCallable(cc)
+		got, _ := observe(cc, o, tr, gc)
+		return got != "ok", o.String()
+	}
+	// the store site of append
+	appendConverts := strings.Contains(","+fields["sites"]+",", ",VM.appendSlice=1,")
+	if bad, impl := fails("lit/slice-append/program"); bad == appendConverts {
+		c.Res.AddBreak(proto.Break{Kind: "correspondence", Name: "CallableValue-vs-append", Case: "C05 funcvalues", Human: "fs = append(fs, func() {…})",
+			Impl: impl, Model: ans})
+	}
+	c.Res.Count("funcvalues append", true)
+	// per kind
+	type probe struct {
+		kind, shape string
+		typ         reflect.Type
+	}
+	ct, pct, ci := reflect.TypeOf(CT{}), reflect.TypeOf(&CT{}), reflect.TypeOf((*CI)(nil)).Elem()
+	_ = ci
+	var probes []probe
+	for _, k := range callKinds() {
+		switch {
+		case strings.HasPrefix(k.expr, "x.CT."):
+			m, _ := ct.MethodByName(strings.TrimPrefix(k.expr, "x.CT."))
+			probes = append(probes, probe{k.name, "r", m.Type})
+		case strings.HasPrefix(k.expr, "(*x.CT)."):
+			m, _ := pct.MethodByName(strings.TrimPrefix(k.expr, "(*x.CT)."))
+			probes = append(probes, probe{k.name, "r", m.Type})
+		case strings.HasPrefix(k.expr, "ct§."):
+			name := strings.TrimPrefix(k.expr, "ct§.")
+			v := reflect.ValueOf(&CT{}).MethodByName(name)
+			probes = append(probes, probe{k.name, "v", v.Type()})
+		case strings.HasPrefix(k.expr, "pt§."):
+			v := reflect.ValueOf(&CT{}).MethodByName(strings.TrimPrefix(k.expr, "pt§."))
+			probes = append(probes, probe{k.name, "v", v.Type()})
+		case strings.HasPrefix(k.expr, "x.") && !strings.Contains(k.expr, "(") && !k.noGc:
+			if d, ok := callableDecls[strings.TrimPrefix(k.expr, "x.")]; ok && reflect.TypeOf(d).Kind() == reflect.Func {
+				probes = append(probes, probe{k.name, "n", reflect.TypeOf(d)})
+			}
+		case k.decl != "" || strings.HasPrefix(k.expr, "func("):
+			probes = append(probes, probe{k.name, "s", nil})
+		}
+	}
+	envType := reflect.TypeOf((*native.Env)(nil)).Elem()
+	var lines []string
+	for _, p := range probes {
+		ins := ""
+		if p.typ != nil {
+			for i := 0; i < p.typ.NumIn(); i++ {
+				if p.typ.In(i) == envType {
+					ins += "e"
+				} else {
+					ins += "o"
+				}
+			}
+		}
+		if ins == "" {
+			ins = "-"
+		}
+		lines = append(lines, "C05 valuetype "+p.shape+" "+ins)
+	}
+	answers, err := c.D.Batch(lines)
+	if err != nil {
+		return err
+	}
+	kinds := map[string]callKind{}
+	for _, k := range callKinds() {
+		kinds[k.name] = k
+	}
+	for i, p := range probes {
+		c.Res.Count(lines[i]+" "+p.kind, true)
+		f := strings.Fields(answers[i])
+		if len(f) != 4 || f[0] != "ok" {
+			c.Res.AddBreak(proto.Break{Kind: "correspondence", Name: "CallableValue-protocol", Case: lines[i], Impl: p.kind, Model: answers[i]})
+			continue
+		}
+		k := kinds[p.kind]
+		// the family's table against the model on the real function's parameters
+		if (f[2] == "1") != (k.raw != "") {
+			c.Res.AddBreak(proto.Break{Kind: "correspondence", Name: "CallableValue-environment-parameter", Case: lines[i], Human: k.expr,
+				Impl:  fmt.Sprintf("the family treats %s as a callable %s an environment parameter (Go type %v)", p.kind, map[bool]string{true: "with", false: "without"}[k.raw != ""], p.typ),
+				Model: answers[i]})
+			continue
+		}
+		// the model's verdict against the real virtual machine storing the callable in a slice
+		id := p.kind + "/slice-literal/program"
+		if k.noProg {
+			id = p.kind + "/slice-literal/template"
+		}
+		if _, ok := find(id); !ok {
+			continue
+		}
+		if bad, impl := fails(id); bad == (f[1] == "1") {
+			c.Res.AddBreak(proto.Break{Kind: "correspondence", Name: "CallableValue-vs-store", Case: lines[i], Human: "[]" + k.typ + "{" + unsuffix(k.expr) + "}",
+				Impl: impl, Model: answers[i] + " (" + ans + ")"})
+		}
+	}
+	return nil
 }
